@@ -678,9 +678,10 @@ class Ctx:
             'wall_s': round(wall, 3),
             'violations': len(self.violations),
         }
-        os.makedirs(os.path.join(VERIF, 'evidence'), exist_ok=True)
-        with open(os.path.join(VERIF, 'evidence', self.prop + '.json'),
-                  'w') as fh:
+        evdir = os.environ.get('DSA_EVIDENCE_DIR') or \
+            os.path.join(VERIF, 'evidence')
+        os.makedirs(evdir, exist_ok=True)
+        with open(os.path.join(evdir, self.prop + '.json'), 'w') as fh:
             json.dump(ev, fh, indent=1, default=str)
         for a in self.advisories:
             print('ADVISORY: property=%s %s' % (self.prop, a))
@@ -696,7 +697,7 @@ class Ctx:
         for r, c in sorted(self.rule_counts.items()):
             print('  %-10s %d instances' % (r, c))
         if self.violations:
-            rdir = os.path.join(VERIF, 'evidence', 'replay')
+            rdir = os.path.join(evdir, 'replay')
             os.makedirs(rdir, exist_ok=True)
             rp = os.path.join(rdir, '%s.json' % self.prop)
             with open(rp, 'w') as fh:
